@@ -299,7 +299,7 @@ pub fn run(sink: &mut Sink, thorough: bool, seed: u64) {
     // wire codec self-check (the replay path depends on it)
     for k in 0..200 { let v = gen_value4(&mut r, k % 4, true); let e = enc(&v); assert_eq!(e, enc(&dec_value(&e)), "wire codec"); }
     for v in fixed_values(&mut r) { emit_rtv(sink, &cfg, &v, &mut r, "fixed"); }
-    let n = if thorough { 60000 } else { 4000 };
+    let n = if thorough { 30000 } else { 4000 };
     for k in 0..n {
         let d = r.below(5);
         let floats = k % 3 != 0;
